@@ -46,6 +46,80 @@ fn io_point(kind: &'static str) {
         }
     }
 }
+// ------------------------------------------------------------------ disk faults (Scenario.disk_fault)
+static FAULT_OP: AtomicUsize = AtomicUsize::new(0); // 0 none, 1 read, 2 open, 3 stat, 4 seek
+static FAULT_NTH: AtomicUsize = AtomicUsize::new(0);
+static FAULT_ERRNO: AtomicUsize = AtomicUsize::new(0); // 0 = end of file
+static FAULT_STICKY: AtomicBool = AtomicBool::new(false);
+static FAULT_COUNT: AtomicUsize = AtomicUsize::new(0);
+static FAULT_FD: std::sync::atomic::AtomicI32 = std::sync::atomic::AtomicI32::new(-1);
+
+pub fn set_disk_fault(f: Option<&crate::scenario::DiskFault>) {
+    FAULT_COUNT.store(0, Ordering::SeqCst);
+    match f {
+        None => FAULT_OP.store(0, Ordering::SeqCst),
+        Some(f) => {
+            FAULT_NTH.store(f.nth as usize, Ordering::SeqCst);
+            FAULT_STICKY.store(f.sticky, Ordering::SeqCst);
+            FAULT_ERRNO.store(
+                match f.kind.as_str() {
+                    "eof" => 0,
+                    "EACCES" => libc::EACCES,
+                    "EMFILE" => libc::EMFILE,
+                    "ENOENT" => libc::ENOENT,
+                    "EINTR" => libc::EINTR,
+                    "ENOMEM" => libc::ENOMEM,
+                    "EISDIR" => libc::EISDIR,
+                    _ => libc::EIO,
+                } as usize,
+                Ordering::SeqCst,
+            );
+            FAULT_OP.store(match f.op.as_str() { "read" => 1, "open" => 2, "stat" => 3, "seek" => 4, _ => 0 }, Ordering::SeqCst);
+        }
+    }
+}
+
+/// no new fault from here on (the probe phase); a descriptor that already fails keeps failing
+pub fn stop_new_disk_faults() {
+    FAULT_OP.store(0, Ordering::SeqCst);
+}
+
+/// Some(return value) when this call is the one to fail
+fn disk_fault(op: usize, fd: c_int) -> Option<isize> {
+    let ret = || -> isize {
+        let e = FAULT_ERRNO.load(Ordering::Relaxed);
+        if e == 0 {
+            0
+        } else {
+            unsafe { *libc::__errno_location() = e as c_int };
+            -1
+        }
+    };
+    if op == 1 && fd >= 0 && fd == FAULT_FD.load(Ordering::Relaxed) {
+        return Some(ret());
+    }
+    if FAULT_OP.load(Ordering::Relaxed) != op || std::thread::panicking() {
+        return None;
+    }
+    let w = crate::rt::WORLD.get()?;
+    let c = FAULT_COUNT.fetch_add(1, Ordering::SeqCst) + 1;
+    if c != FAULT_NTH.load(Ordering::Relaxed) {
+        return None;
+    }
+    if op == 1 && FAULT_STICKY.load(Ordering::Relaxed) {
+        FAULT_FD.store(fd, Ordering::SeqCst);
+    }
+    w.disk_fault_fired(op, FAULT_ERRNO.load(Ordering::Relaxed));
+    Some(ret())
+}
+
+fn fd_opened(fd: c_int) -> c_int {
+    if fd >= 0 && fd == FAULT_FD.load(Ordering::Relaxed) {
+        FAULT_FD.store(-1, Ordering::SeqCst);
+    }
+    fd
+}
+
 static SEEN_ANY: AtomicUsize = AtomicUsize::new(0);
 static EVENTS: Mutex<Vec<String>> = Mutex::new(Vec::new());
 /// absolute paths the code under test created outside the run's tree while the monitor was armed
@@ -121,7 +195,10 @@ pub unsafe extern "C" fn open64(path: *const c_char, flags: c_int, mode: mode_t)
         }
     }
     io_point("open");
-    libc::syscall(libc::SYS_openat, libc::AT_FDCWD, path, flags | libc::O_LARGEFILE, mode as c_int) as c_int
+    if let Some(r) = disk_fault(2, -1) {
+        return r as c_int;
+    }
+    fd_opened(libc::syscall(libc::SYS_openat, libc::AT_FDCWD, path, flags | libc::O_LARGEFILE, mode as c_int) as c_int)
 }
 
 #[no_mangle]
@@ -130,7 +207,10 @@ pub unsafe extern "C" fn open(path: *const c_char, flags: c_int, mode: mode_t) -
         record("open_for_write", path, &format!(" flags={:#x}", flags));
     }
     io_point("open");
-    libc::syscall(libc::SYS_openat, libc::AT_FDCWD, path, flags, mode as c_int) as c_int
+    if let Some(r) = disk_fault(2, -1) {
+        return r as c_int;
+    }
+    fd_opened(libc::syscall(libc::SYS_openat, libc::AT_FDCWD, path, flags, mode as c_int) as c_int)
 }
 
 #[no_mangle]
@@ -261,6 +341,9 @@ pub unsafe extern "C" fn utimensat(dirfd: c_int, path: *const c_char, times: *co
 pub unsafe extern "C" fn read(fd: c_int, buf: *mut libc::c_void, count: usize) -> isize {
     if fd > 2 {
         io_point("read");
+        if let Some(r) = disk_fault(1, fd) {
+            return r;
+        }
     }
     libc::syscall(libc::SYS_read, fd, buf, count) as isize
 }
@@ -268,6 +351,9 @@ pub unsafe extern "C" fn read(fd: c_int, buf: *mut libc::c_void, count: usize) -
 #[no_mangle]
 pub unsafe extern "C" fn pread64(fd: c_int, buf: *mut libc::c_void, count: usize, offset: i64) -> isize {
     io_point("pread");
+    if let Some(r) = disk_fault(1, fd) {
+        return r;
+    }
     libc::syscall(libc::SYS_pread64, fd, buf, count, offset) as isize
 }
 
@@ -280,6 +366,9 @@ pub unsafe extern "C" fn pread(fd: c_int, buf: *mut libc::c_void, count: usize, 
 #[no_mangle]
 pub unsafe extern "C" fn lseek64(fd: c_int, offset: i64, whence: c_int) -> i64 {
     io_point("seek");
+    if let Some(r) = disk_fault(4, fd) {
+        return if r == 0 { 0 } else { -1 };
+    }
     libc::syscall(libc::SYS_lseek, fd, offset, whence) as i64
 }
 
@@ -308,6 +397,9 @@ pub unsafe extern "C" fn fchdir(fd: c_int) -> c_int {
 #[no_mangle]
 pub unsafe extern "C" fn statx(dirfd: c_int, path: *const c_char, flags: c_int, mask: libc::c_uint, buf: *mut libc::statx) -> c_int {
     io_point("stat");
+    if let Some(r) = disk_fault(3, -1) {
+        return r as c_int;
+    }
     libc::syscall(libc::SYS_statx, dirfd, path, flags, mask, buf) as c_int
 }
 
